@@ -54,6 +54,53 @@ func hexVal(s string) (uint64, bool) {
 		return 1, true
 	case s == "false":
 		return 0, true
+	case strings.HasPrefix(s, "(fp "):
+		// (fp #b<sign> #b<exp> #x<mantissa>|#b<mantissa>): reassemble the IEEE bit pattern
+		f := strings.Fields(strings.Trim(s, "()"))
+		if len(f) != 4 {
+			return 0, false
+		}
+		bits := ""
+		for _, p := range f[1:] {
+			switch {
+			case strings.HasPrefix(p, "#b"):
+				bits += p[2:]
+			case strings.HasPrefix(p, "#x"):
+				for _, ch := range p[2:] {
+					v, err := strconv.ParseUint(string(ch), 16, 8)
+					if err != nil {
+						return 0, false
+					}
+					bits += fmt.Sprintf("%04b", v)
+				}
+			default:
+				return 0, false
+			}
+		}
+		v, err := strconv.ParseUint(bits, 2, 64)
+		return v, err == nil
+	case strings.HasPrefix(s, "(_ "):
+		// (_ +zero 8 24), (_ -zero 8 24), (_ +oo 8 24), (_ -oo 8 24), (_ NaN 8 24)
+		f := strings.Fields(strings.Trim(s, "()"))
+		if len(f) != 4 {
+			return 0, false
+		}
+		eb, _ := strconv.Atoi(f[2])
+		sb, _ := strconv.Atoi(f[3])
+		w := uint(eb + sb)
+		expAll := (uint64(1)<<uint(eb) - 1) << uint(sb-1)
+		switch f[1] {
+		case "+zero":
+			return 0, true
+		case "-zero":
+			return uint64(1) << (w - 1), true
+		case "+oo":
+			return expAll, true
+		case "-oo":
+			return uint64(1)<<(w-1) | expAll, true
+		case "NaN":
+			return expAll | uint64(1)<<uint(sb-2), true
+		}
 	}
 	return 0, false
 }
